@@ -109,6 +109,40 @@ example : assignOK false [p1] [eA] [eB] = true := by unfold assignOK; decide
 /-- leaving the pod without address although one is free is not an admitted outcome in single stack -/
 example : assignOK false [p1v4] [eA] [eA] = false := by unfold assignOK; decide
 
+/-! ## RDMA pods only: how a pod is classified -/
+
+/-- a pod is asked an RDMA interface for only if RDMA is enabled on the node and one of ITS OWN containers has a
+    non-zero RDMA limit — whatever other pods are listed before or after it -/
+theorem c02_rdma_only_for_rdma_pods (en4 en6 erdmaOn : Bool) (before after : List RawPod) (p : RawPod)
+    (r : String × Bool × Bool × Bool) (hr : r ∈ getPods en4 en6 erdmaOn (before ++ p :: after)) (hn : r.1 = p.name)
+    (huniq : ∀ q ∈ before ++ after, q.name ≠ p.name) :
+    r.2.2.2 = (erdmaOn && (p.erdmaInit || p.erdmaMain)) := by
+  unfold getPods at hr
+  simp only [List.filterMap_append, List.filterMap_cons, List.mem_append] at hr
+  have other : ∀ l : List RawPod, (∀ q ∈ l, q.name ≠ p.name) → r ∉ l.filterMap (classify en4 en6 erdmaOn) := by
+    intro l hl hm
+    obtain ⟨q, hq, hc⟩ := List.mem_filterMap.mp hm
+    unfold classify at hc
+    split at hc
+    · cases hc
+    · simp only [Option.some.injEq] at hc
+      exact hl q hq (by rw [← hn, ← hc])
+  rcases hr with h | h
+  · exact absurd h (other before fun q hq => huniq q (List.mem_append_left _ hq))
+  · cases hc : classify en4 en6 erdmaOn p with
+    | none =>
+      rw [hc] at h
+      exact absurd h (other after fun q hq => huniq q (List.mem_append_right _ hq))
+    | some v =>
+      rw [hc] at h
+      rcases List.mem_cons.mp h with h | h
+      · unfold classify at hc
+        split at hc
+        · cases hc
+        · simp only [Option.some.injEq] at hc
+          rw [h, ← hc]
+      · exact absurd h (other after fun q hq => huniq q (List.mem_append_right _ hq))
+
 /-! ## cloud drift: the full synchronisation's merge -/
 
 /-- an address known to both the record and the cloud keeps its recorded entry — in particular an address bound to a
